@@ -53,11 +53,12 @@ def prop_digest_lines(c, ci):
 
 def rounds_to(a, full, p):
     """a is `full` printed with p significant digits"""
-    if p >= MAXP:
+    if p >= 17:          # 17 significant digits identify a double
         return a == full
     if full == 0:
         return a == 0
-    return abs(a - full) <= 0.51 * 10.0 ** (1 - p) * abs(full) * 1.0000001
+    # half a unit of the last printed digit, plus the rounding of reading the decimal back into a double
+    return abs(a - full) <= 0.5 * 10.0 ** (1 - p) * abs(full) * 1.0000001 + 3e-16 * abs(full)
 
 
 def terms_of(cal):
@@ -108,8 +109,9 @@ def run(chk):
             L += scx.lines
             L.append('cal add_calibration 0 %s %d' % (h(names[last]), ncal))
             scs[last] = scx
-        fp = rng.choice([7, 7, 1, 3, 6, 9, 12, 15, MAXP])
-        dp = rng.choice([6, 6, 1, 2, 3, 9, 12, 15, MAXP, MAXP])
+        # decimal precisions beyond the 15 digits a double always survives: from 17 digits on the round trip is exact
+        fp = rng.choice([7, 7, 1, 3, 6, 9, 12, 15, 16, 17, 18, 25, 40, MAXP])
+        dp = rng.choice([6, 6, 1, 2, 3, 9, 12, 15, 16, 17, 18, 20, 25, 40, MAXP, MAXP])
         c = dict(lines=L, ncal=ncal, names=names, scs=scs, deleted=deleted, fp=fp, dp=dp)
         L += ['cal set_fprecision 0 %d' % MAXP, 'cal set_dprecision 0 %d' % MAXP, 'cal savestr 0']
         c['i_max'] = len(L) - 1
@@ -236,7 +238,7 @@ def run(chk):
         for k, (j, dut) in enumerate(c['duts']):
             a0 = o1[c['i_apply0'] + k]
             a1 = out2[i + 5 + nl + k]
-            if c['dp'] >= MAXP and c['fp'] >= MAXP:
+            if c['dp'] >= 17 and c['fp'] >= 17:
                 same = a0 == a1
             else:
                 n = c['scs'][j].p
@@ -277,7 +279,7 @@ def run(chk):
             chk.count('model_layout_same')
     old_versions(chk, exe, rng, 3 if quick else 40)
     chk.rule = ('random vnacal_t: 1..3 calibrations of all 8 types, square and rectangular, m and a/b, 1..3 frequencies, names needing YAML quoting, global and per-calibration '
-                'property trees, optionally a deleted slot; fprecision/dprecision in 1..15 and maximum; also under the `#VNACAL 3.0` header and E12 data in the `#VNACAL 2.0` layout; '
+                'property trees, optionally a deleted slot; fprecision/dprecision in 1..40 and maximum (17 digits and more must round-trip bit-exactly); also under the `#VNACAL 3.0` header and E12 data in the `#VNACAL 2.0` layout; '
                 'distinct = (types and shapes, precisions, deleted slot, header)')
     chk.samples = [[l[:100] for l in cases[0]['lines'][:5]]]
     if broken and not chk.violations:
